@@ -200,8 +200,10 @@ def gen_command(rng, cls, short=False):
             num = rng.choice([0, 1, 2, 3, -1])
             text.append(opt("--num", "-n") + " " + str(num))
         if rng.random() < 0.4:
-            gname = rng.choice(["g1", "g2"])
+            gname = rng.choice(["g1", "g2", "g\t3", "g\u00a04", ""])
             text.append(opt("--group-name", "-g") + " " + gname)
+            if gname == "":
+                text.append("--num " + str(num))       # keeps the empty value from being the stripped line end
         pos = [{"$func": fn}, freeze(args), freeze(kwargs), num, gname]
         cbs(text, pos)
         return " ".join(text), {"m": "apply", "a": pos}
@@ -237,9 +239,12 @@ def gen_command(rng, cls, short=False):
         ids = [rng.choice([0, 1, 2, 3, 4, 9, -1]) for _ in range(rng.choice([0, 1, 1, 2, 3]))]
         text = ["cancel"] + [str(i) for i in ids]
         kw = {}
-        if rng.random() < 0.3:
-            kw["msg"] = "bye"
-            text.append(opt("--msg", "-m") + " bye")
+        if rng.random() < 0.4:
+            kw["msg"] = rng.choice(["bye", "shut\u00a0down", "a\tb", ""])
+            text.insert(1, opt("--msg", "-m") + " " + kw["msg"])
+            if not ids:
+                text.append("0")
+                ids = [0]
         return " ".join(text), {"m": "cancel", "a": ids, "k": kw}
     if k == "cancel-group":
         g = rng.choice(["g1", "g2", "apply-work-group-0", "map-work-group-0", "start-group-0", "nope"])
